@@ -135,6 +135,19 @@ def enumerate_cases(tier: str):
                 yield {"pair": [old, new], "metric": bool(ack), "registry": ENUM_REGISTRY,
                        "ops": [op for line in lines for op in (["rx", line],)] + [["send", [2, 0, 1, 0, 0, "9"], None], ["rx", "1;0;2;0;0;\n"], ["rx", "1;0;1;0;0;5\n"]]}
     yield from _type_sweep()
+    # one event of every kind (messages and application sends) under one environment dimension at a time, both versions in the same environment
+    for old, new in PAIRS:
+        cross = old.startswith("1") and new.startswith("2")
+        excluded = {2} | ({22} if new == "2.2" else set()) | ({14} if cross else set())
+        for events in drive.TOUR_EVENTS:
+            if any(op[0] not in ("rx", "send") for op in events):
+                continue
+            internal = [int(op[1].split(";")[4]) for op in events if op[0] == "rx" and op[1].count(";") >= 5 and op[1].split(";")[2] == "3" and plain_int(op[1].split(";")[4])]
+            internal += [op[1][4] for op in events if op[0] == "send" and op[1][2] == 3]
+            if any(t in excluded or t > INTERNAL_MAX[old] for t in internal):
+                continue  # (outside the statement: types the older table lacks, the version report, 22 towards 2.2, gateway-ready across generations)
+            for dim in ({"debug_log": True}, {"warnings": "error"}, {"via": "mqtt"}, {"via": "stream"}):
+                yield {"pair": [old, new], "metric": True, "registry": drive.TOUR_REGISTRY, "ops": [list(op) for op in events], **dim}
     # several commands parked for one sleeping node, some re-issued (first, middle, last), then the wake: the same lines in the same order
     for old, new in PAIRS:
         wakes = [t for t in (22, 32) if t <= INTERNAL_MAX[old] and not (t == 22 and new == "2.2")]
@@ -200,7 +213,9 @@ def _type_sweep():
 def strategy(tier: str):
     return st.sampled_from(PAIRS).flatmap(
         lambda pair: st.fixed_dictionaries({"pair": st.just(list(pair)), "metric": st.booleans(), "registry": _registry(), "ops": _ops(*pair),
-                                            "tz": st.sampled_from((None, None, "UTC0", "<+0530>-5:30", "<-08>8", "<+14>-14", "<+01>-1"))})
+                                            "tz": st.sampled_from((None, None, "UTC0", "<+0530>-5:30", "<-08>8", "<+14>-14", "<+01>-1")),
+                                            "debug_log": st.sampled_from((False, False, False, True)), "warnings": st.sampled_from((None, None, None, "error")),
+                                            "via": st.sampled_from((None, None, None, "mqtt", "stream"))})
     )
 
 
@@ -263,7 +278,7 @@ def _run_case(case: dict) -> Outcome:
     async def go() -> Outcome | None:
         gateways = []
         for version in (old, new):
-            gateway, transport = env.make_gateway(version, metric=case.get("metric", True))
+            gateway, transport = env.make_gateway(version, metric=case.get("metric", True), via=case.get("via"))
             env.install_registry(gateway.nodes, case["registry"])
             gateways.append((gateway, transport))
         shadow = RefController(old, registry=case["registry"]) if cross else None
@@ -343,7 +358,8 @@ def _run_case(case: dict) -> Outcome:
                 shadow.send_set(op[1], True if op[2] is None else op[2])
         return None
 
-    bad = env.run(go())
+    with env.debug_logging(bool(case.get("debug_log"))), env.strict_warnings(case.get("warnings") == "error"):
+        bad = env.run(go())
     classes = (f"pair={old}->{new}", f"itypes={min(len(info['itypes']), 6)}") + (("parked-command",) if info["parked"] else ()) + (("ops-skipped",) if info["skipped"] else ())
     if bad is not None:
         bad.classes = classes
